@@ -207,6 +207,40 @@ def concrete_playback(harness, flags, timeout_s, mem_gb, logdir):
     return tests
 
 
+TRACE_VAL_RE = re.compile(r"goto_symex\$\$return_value\$\$\w*any_raw_internal\w*=\S+ \(([01 ]+)\)")
+
+
+def trace_playback(harness, flags, timeout_s, mem_gb, logdir):
+    """Fallback for unwinding-assertion failures (Kani's concrete playback skips them): asks CBMC for the
+    trace of the failed unwinding assertion and reads the kani::any() return values off it, in order."""
+    cmd = ["cargo", "kani", "--target-dir", os.path.join(TARGET, "k"), "--exact", "--harness", harness] + list(flags)
+    cmd += ["-Z", "unstable-options", "--harness-timeout", "%ds" % timeout_s, "--output-format", "old",
+            "--cbmc-args", "--trace"]
+    shell = "ulimit -v %d; exec %s" % (mem_gb * 1024 * 1024, " ".join("'%s'" % c for c in cmd))
+    try:
+        p = subprocess.run(["bash", "-c", shell], cwd=KANI_DIR, env=ENV, text=True, capture_output=True,
+                           timeout=timeout_s + 900)
+    except subprocess.TimeoutExpired:
+        return []
+    out = p.stdout
+    open(os.path.join(logdir, "trace_%s.log" % harness.replace("::", "_")), "w").write(out[-2000000:])
+    tests = []
+    blocks = re.split(r"^Trace for (.*):$", out, flags=re.M)
+    # blocks = [pre, name1, body1, name2, body2, ...]
+    for i in range(1, len(blocks) - 1, 2):
+        name, body = blocks[i], blocks[i + 1]
+        if ".unwind." not in name:
+            continue
+        vals = []
+        for m in TRACE_VAL_RE.finditer(body):
+            bits = m.group(1).replace(" ", "")
+            n = len(bits) // 8
+            v = int(bits, 2)
+            vals.append([(v >> (8 * k)) & 0xFF for k in range(n)])
+        tests.append({"kind": "unwind", "check": "unwinding assertion " + name, "vals": vals})
+    return tests
+
+
 def native_replay(harness, vals, watchdog_s=20, release=False):
     """Replays concrete values against the real code: the harness function is compiled natively
     (cargo kani playback = ordinary `cargo test` build with kani::any() fed from `vals`).
@@ -336,6 +370,8 @@ def run_property(pid, prop, tier, seed, only=None, jobs=None, replay_only=None):
             log("[%s] %s: failed check(s) %s -> extracting counterexample" % (pid, name, descs[:3]))
             tests = concrete_playback(name, flags, hmeta.get("timeout", 600), hmeta.get("mem_gb", 14), logdir)
             fails = [t for t in tests if t["kind"] != "cover"]
+            if not fails and r["verdict"] == "unwind":
+                fails = trace_playback(name, flags, hmeta.get("timeout", 600), hmeta.get("mem_gb", 14), logdir)
             replayed = None
             for t in fails:
                 if match_known(known, pid, name, t["check"]):
@@ -343,7 +379,7 @@ def run_property(pid, prop, tier, seed, only=None, jobs=None, replay_only=None):
                 st, txt = native_replay(name, t["vals"], watchdog_s=hmeta.get("watchdog", 20))
                 t["native"] = st
                 t["native_out"] = txt[-1500:]
-                if st in ("fail", "hang"):
+                if st in ("fail", "hang") and (t["kind"] != "unwind" or st == "hang"):
                     replayed = t
                     break
                 if st == "error":
